@@ -63,6 +63,11 @@ class InjectedFailure(Exception):
     pass
 
 
+class InjectedTimeout(TimeoutError):
+    """what a deadline inside a coroutine backend raises: the BUILT-IN TimeoutError (asyncio.TimeoutError, socket.timeout and
+    concurrent.futures.TimeoutError are all that class on Python >= 3.11)"""
+
+
 class GatedAsync(Backend):
     def __init__(self, gate: Gate, objects=None):
         self.gate, self.objects = gate, objects if objects is not None else {}
@@ -76,7 +81,7 @@ class GatedAsync(Backend):
             await ev.wait()
             self.gate.order.append(label)
             if (self.gate.fail_at is not None and idx == self.gate.fail_at) or (self.gate.fail_from is not None and idx >= self.gate.fail_from):
-                raise InjectedFailure(label)
+                raise (InjectedTimeout if getattr(self.gate, 'fail_kind', 'injected') == 'timeout' else InjectedFailure)(label)
         except BaseException:
             self.gate.leave()
             raise
@@ -154,7 +159,7 @@ class GatedPlain(Backend):
                 raise TimeoutError('gate never released')
             self.gate.order.append(label)
             if (self.gate.fail_at is not None and idx == self.gate.fail_at) or (self.gate.fail_from is not None and idx >= self.gate.fail_from):
-                raise InjectedFailure(label)
+                raise (InjectedTimeout if getattr(self.gate, 'fail_kind', 'injected') == 'timeout' else InjectedFailure)(label)
         except BaseException:
             self.gate.leave()
             raise
@@ -376,7 +381,11 @@ def gen_case(rng):
     return {'mn': mn, 'mx': mx, 'files': files, 'content_seed': rng.randint(0, 2 ** 31), 'N': rng.choice([1, 2, 2, 3, 5]),
             'flavour': rng.choice(['async', 'plain']), 'order_seed': rng.randint(0, 2 ** 31), 'encrypted': rng.random() < 0.5,
             'fail_at': rng.choice([None, None, None, 0, 1, 2, 3, 5, 8]), 'fail_phase': rng.choice(['snapshot', 'restore']),
-            'rendezvous': rng.random() < 0.6, 'mode': 'random'}
+            'rendezvous': rng.random() < 0.6, 'mode': 'random',
+            # what an injected backend failure looks like (the built-in TimeoutError is what deadlines of coroutine backends raise)
+            'fail_kind': rng.choice(['injected', 'injected', 'timeout']),
+            # the chunk producer's own failure: a source file vanishes while the stream is being read
+            'producer_fail': nfiles >= 2 and rng.random() < 0.15}
 
 
 def make_tree(case, root: Path):
@@ -463,8 +472,33 @@ def run_case(case, wd: Path, chooser_factory):
             await asyncio.wait_for(drive(gate, t, chooser), 60)
             await t
             gate.entered = 0
+            gate.fail_kind = case.get('fail_kind', 'injected')
             gate.fail_at = case['fail_at'] if case['fail_phase'] == 'snapshot' else None
             gate.fail_from = case.get('down_from') if case['fail_phase'] == 'snapshot' else None
+            producer_fail = bool(case.get('producer_fail')) and gate.fail_at is None and gate.fail_from is None
+            orig_read_metadata = R.Repository.read_metadata
+            if producer_fail:
+                victims = sorted((wd / 'src').rglob('*'))
+                victims = [v for v in victims if v.is_file()]
+                fired = []
+
+                def vanishing(self_, file, _victims=victims, _fired=fired):
+                    # runs on the chunk-producer thread after a file has been read: the file that would be read LAST disappears now
+                    if not _fired:
+                        _fired.append(1)
+                        import os as _os
+                        for v in _victims:
+                            try:
+                                if _os.fstat(file).st_ino != v.stat().st_ino:
+                                    last = v
+                            except OSError:
+                                pass
+                        try:
+                            last.unlink()
+                        except Exception:
+                            pass
+                    return orig_read_metadata(self_, file)
+                R.Repository.read_metadata = vanishing
             plog = PipeLog()
             saved_queue = R.queue
             R.queue = plog.module()
@@ -476,17 +510,30 @@ def run_case(case, wd: Path, chooser_factory):
                 finally:
                     R.queue = saved_queue
                     backend.on_done = None
+                    R.Repository.read_metadata = orig_read_metadata
             except (asyncio.TimeoutError, TimeoutError):
                 obs['problems'].append(('snapshot does not terminate under this completion order', 'hang'))
                 t.cancel()
                 return
             snap_exc = t.exception()
+            if producer_fail:
+                # sequential semantics: the stream cannot be read to its end, so the command fails and stores no snapshot
+                await _slots_back(repo, N, obs, 'snapshot', gate)
+                if snap_exc is None and not all(v.exists() for v in victims):
+                    obs['problems'].append(('a source file vanished while the chunk producer was reading the stream, yet snapshot reported success '
+                                            '(the producer thread\'s failure was lost)', 'swallowed'))
+                elif snap_exc is not None and not isinstance(snap_exc, OSError):
+                    obs['problems'].append((f'snapshot raised {type(snap_exc).__name__} when a source file vanished (expected the OSError)', 'spurious_error'))
+                if snap_exc is not None and any(n.startswith('snapshots/') for n in objects):
+                    obs['problems'].append(('a failed snapshot left a snapshot object', 'partial'))
+                obs['producer_fail'] = True
+                return
             obs['snapshot_max_outstanding'] = gate.max_outstanding
             obs['max_pending'] = gate.max_pending
             await _slots_back(repo, N, obs, 'snapshot', gate)
             injected = (gate.fail_at is not None and gate.entered > gate.fail_at) or (gate.fail_from is not None and gate.entered > gate.fail_from)
             if snap_exc is not None:
-                if not (injected and isinstance(snap_exc, InjectedFailure)):
+                if not (injected and isinstance(snap_exc, (InjectedFailure, InjectedTimeout))):
                     obs['problems'].append((f'snapshot raised {type(snap_exc).__name__}: {str(snap_exc)[:100]} '
                                             f'({"an injected failure was pending" if injected else "no failure was injected"})', 'spurious_error'))
                 if any(n.startswith('snapshots/') for n in objects):
@@ -550,7 +597,7 @@ def run_case(case, wd: Path, chooser_factory):
             await _slots_back(repo2, N, obs, 'restore', gate)
             injected = gate.fail_at is not None and gate.entered > gate.fail_at
             if exc is not None:
-                if not (injected and isinstance(exc, InjectedFailure)):
+                if not (injected and isinstance(exc, (InjectedFailure, InjectedTimeout))):
                     obs['problems'].append((f'restore raised {type(exc).__name__}: {str(exc)[:100]} '
                                             f'({"an injected failure was pending" if injected else "no failure was injected"})', 'spurious_error'))
                 return
@@ -682,6 +729,9 @@ def check(case, ctx, rep: Report, chooser_factory, tag):
     rep.count('flavour=' + case['flavour'])
     rep.count('fail=' + ('down' if case.get('down_from') is not None else 'none' if case['fail_at'] is None else case['fail_phase']))
     rep.count('rendezvous_met', obs.get('rendezvous_met', 0))
+    if obs.get('producer_fail'):
+        rep.count('producer_failure_cases')
+    rep.count('fail_kind=' + str(case.get('fail_kind', 'injected')))
     if obs.get('fin_trace'):
         rep.extra.setdefault('_fin_traces', []).append((obs['fin_trace'][0], obs['fin_trace'][1], case))
     if obs.get('pipe_trace'):
